@@ -211,7 +211,10 @@ func Configs(thorough bool) []Options {
 			}
 		}
 	}
-	out = append(out, Options{Mem: 30, Table: 40, L0: 3, Smallest: 4500, Ampl: 50}, Options{Mem: 30, Table: 80, L0: 4, Smallest: 9000, Ampl: 200})
+	// the last one: the first compaction is a major one (empty base level), later ones are minor
+	// merges of level 0 into level 1 above a non-empty base level
+	out = append(out, Options{Mem: 30, Table: 40, L0: 3, Smallest: 4500, Ampl: 50}, Options{Mem: 30, Table: 80, L0: 4, Smallest: 9000, Ampl: 200},
+		Options{Mem: 30, Table: 80, L0: 1, Smallest: 9000, Ampl: 200})
 	if thorough {
 		out = append(out, Options{Mem: 30, Table: 40, L0: 2, Smallest: 9000, Ampl: 200},
 			Options{Mem: 50, Table: 40, L0: 3, Smallest: 100, Ampl: 0},
